@@ -146,6 +146,7 @@ theorem tie_SetCallbackImpl : Extracted.Kernels.BaseCore_SetCallbackImpl = Skele
 theorem tie_SetInlineImpl : Extracted.Kernels.BaseCore_SetInlineImpl = Skeletons.BaseCore_SetInlineImpl := rfl
 theorem tie_SetResultImpl : Extracted.Kernels.BaseCore_SetResultImpl = Skeletons.BaseCore_SetResultImpl := rfl
 theorem tie_Empty : Extracted.Kernels.BaseCore_Empty = Skeletons.BaseCore_Empty := rfl
+theorem tie_Ready : Extracted.Kernels.BaseCore_Ready = Skeletons.BaseCore_Ready := rfl
 theorem tie_Drop_Impl : Extracted.Kernels.Drop_Impl = Skeletons.Drop_Impl := rfl
 theorem tie_Promise_Set : Extracted.Kernels.Promise_Set = Skeletons.Promise_Set := rfl
 theorem tie_Promise_dtor : Extracted.Kernels.Promise_dtor = Skeletons.Promise_dtor := rfl
